@@ -66,7 +66,7 @@ reg(Spec("C02", "c02_decode.cpp", needs=("shim", "optable"), custom="exhaustive"
               "fetch from A+1, and execution never trips the decoder's own consistency assertion; O5 the disassembler's text / length for "
               "(word, second word) is the same right after another second word of the same opcode as after another opcode; O6 a two-word "
               "opcode executed twice at one address with different second words behaves, the second time, as on a second core that never "
-              "ran the first; one full pass of the project's test generator: no undefined word, a second program word only for two-word forms; O4 every bit declared Unused<> in the table text, flipped, on 32/128 generated states: same text, same "
+              "ran the first; O7 every two-word non-branching form under an active single-instruction repeat: the next fetch is never its operand word (fails on the unchanged tree: known finding #18); one full pass of the project's test generator: no undefined word, a second program word only for two-word forms; O4 every bit declared Unused<> in the table text, flipped, on 32/128 generated states: same text, same "
               "execution, and declared set == set of bits the recorder shows to be don't-care. Non-trivial = defined word; distinct = the word.",
          assumptions=["control-transfer handlers (br, brr, call*, ret*, movpdw, mov_pc) are exempt from the pc-advance clause, not from the fetch clause",
                       "instructions ending in Unimplemented / deliberate ASSERT make no length claim",
